@@ -31,14 +31,17 @@ theorem ASplit.of_split : (as : Args) → ∀ {pc t A}, as.split = some (pc, t, 
       obtain ⟨rfl, rfl, rfl⟩ := h
       exact .here _ _ _ (by simpa using hv)
 
-/-- the positions at which `Stmt.split` finds the argument to be lifted (cuts of a constructor with
-    a destructor and of an operator with a destructor are excluded: `cutOkTop`) -/
+/-- the positions at which `Stmt.split` finds the argument to be lifted -/
 inductive SSplit : Stmt → PC → Term → (Term → Stmt) → Prop
   | cutL (ty : Ty) (pc : PC) (k : Ident) (as : Args) (t : Ty) (cn : Term) {c u A} :
       ASplit as c u A →
       SSplit (.cut ty (.xtor pc k as t) cn) c u (fun h => .cut ty (.xtor pc k (A h) t) cn)
+  | cutLR (ty : Ty) (pc : PC) (k : Ident) (as : Args) (t : Ty) (dpc : PC) (d : Ident) (ds : Args)
+      (dt : Ty) {c u D} : as.split = none → ASplit ds c u D →
+      SSplit (.cut ty (.xtor pc k as t) (.xtor dpc d ds dt)) c u
+        (fun h => .cut ty (.xtor pc k as t) (.xtor dpc d (D h) dt))
   | cutR (ty : Ty) (p : Term) (dpc : PC) (d : Ident) (ds : Args) (dt : Ty) {c u D} :
-      (∀ pc k as t, p ≠ .xtor pc k as t) → (∀ a o b, p ≠ .op a o b) → ASplit ds c u D →
+      (∀ pc k as t, p ≠ .xtor pc k as t) → ASplit ds c u D →
       SSplit (.cut ty p (.xtor dpc d ds dt)) c u (fun h => .cut ty p (.xtor dpc d (D h) dt))
   | opL (ty : Ty) (a : Term) (o : BinOp) (b cn : Term) :
       a.isVar = false → (∀ dpc d ds dt, cn ≠ .xtor dpc d ds dt) →
@@ -59,8 +62,8 @@ inductive SSplit : Stmt → PC → Term → (Term → Stmt) → Prop
   | exit (a : Term) (ty : Ty) : a.isVar = false →
       SSplit (.exit a ty) .prd a (fun h => .exit h ty)
 
-theorem SSplit.of_split (s : Stmt) {pc : PC} {t : Term} {S : Term → Stmt}
-    (h : s.split = some (pc, t, S)) (hok : s.cutOkTop = true) : SSplit s pc t S := by
+theorem SSplit.of_split' (s : Stmt) {pc : PC} {t : Term} {S : Term → Stmt}
+    (h : s.split = some (pc, t, S)) : SSplit s pc t S := by
   unfold Stmt.split at h
   split at h
   · next ty kpc k as kt c =>
@@ -69,18 +72,22 @@ theorem SSplit.of_split (s : Stmt) {pc : PC} {t : Term} {S : Term → Stmt}
       simp only [Option.some.injEq, Prod.mk.injEq] at h
       obtain ⟨rfl, rfl, rfl⟩ := h
       exact .cutL _ _ _ _ _ _ (ASplit.of_split as hs)
-    · split at h
-      · simp [Stmt.cutOkTop] at hok
+    · next hsn =>
+      split at h
+      · next dpc d ds dt =>
+        split at h
+        · next c' u D hs =>
+          simp only [Option.some.injEq, Prod.mk.injEq] at h
+          obtain ⟨rfl, rfl, rfl⟩ := h
+          exact .cutLR _ _ _ _ _ _ _ _ _ hsn (ASplit.of_split ds hs)
+        · simp at h
       · simp at h
   · next ty p dpc d ds dt hnx =>
     split at h
     · next c' u D hs =>
       simp only [Option.some.injEq, Prod.mk.injEq] at h
       obtain ⟨rfl, rfl, rfl⟩ := h
-      refine .cutR _ _ _ _ _ _ (fun pc k as t e => hnx pc k as t e) ?_ (ASplit.of_split ds hs)
-      intro a o b e
-      subst e
-      simp [Stmt.cutOkTop] at hok
+      exact .cutR _ _ _ _ _ _ (fun pc k as t e => hnx pc k as t e) (ASplit.of_split ds hs)
     · simp at h
   · next ty a o b c hnx =>
     have hc : ∀ dpc d ds dt, c ≠ .xtor dpc d ds dt := fun dpc d ds dt e => hnx dpc d ds dt e
@@ -139,6 +146,10 @@ theorem SSplit.of_split (s : Stmt) {pc : PC} {t : Term} {S : Term → Stmt}
       exact .exit _ _ (by simpa using ha)
     · simp at h
 
+theorem SSplit.of_split (s : Stmt) {pc : PC} {t : Term} {S : Term → Stmt}
+    (h : s.split = some (pc, t, S)) (_hok : s.cutOkTop = true) : SSplit s pc t S :=
+  SSplit.of_split' s h
+
 /-! ## consequences -/
 
 theorem ASplit.notVar {as pc t A} (h : ASplit as pc t A) : t.isVar = false := by
@@ -173,7 +184,8 @@ theorem ASplit.idents_A {as pc t A} (h : ASplit as pc t A) (x : Term) :
 theorem SSplit.idents_t {s pc t S} (h : SSplit s pc t S) : ∀ i ∈ t.idents, i ∈ s.idents := by
   cases h with
   | cutL _ _ _ _ _ _ ha => intro i hi; simp [Stmt.idents, Term.idents, ha.idents_t i hi]
-  | cutR _ _ _ _ _ _ _ _ ha => intro i hi; simp [Stmt.idents, Term.idents, ha.idents_t i hi]
+  | cutLR _ _ _ _ _ _ _ _ _ _ ha => intro i hi; simp [Stmt.idents, Term.idents, ha.idents_t i hi]
+  | cutR _ _ _ _ _ _ _ ha => intro i hi; simp [Stmt.idents, Term.idents, ha.idents_t i hi]
   | call _ _ _ ha => intro i hi; simp [Stmt.idents, ha.idents_t i hi]
   | _ => intro i hi; simp [Stmt.idents, Term.idents, hi]
 
@@ -187,7 +199,14 @@ theorem SSplit.idents_S {s pc t S} (h : SSplit s pc t S) (x : Term) :
       · exact Or.inl (Or.inl h)
       · exact Or.inr h
     · exact Or.inl (Or.inr hi)
-  | cutR _ _ _ _ _ _ _ _ ha =>
+  | cutLR _ _ _ _ _ _ _ _ _ _ ha =>
+    intro i hi; simp only [Stmt.idents, Term.idents, List.mem_append] at hi ⊢
+    rcases hi with hi | hi
+    · exact Or.inl (Or.inl hi)
+    · rcases ha.idents_A x i hi with h | h
+      · exact Or.inl (Or.inr h)
+      · exact Or.inr h
+  | cutR _ _ _ _ _ _ _ ha =>
     intro i hi; simp only [Stmt.idents, Term.idents, List.mem_append] at hi ⊢
     rcases hi with hi | hi
     · exact Or.inl (Or.inl hi)
@@ -221,7 +240,10 @@ theorem SSplit.plug {s pc t S} (h : SSplit s pc t S) {sc1 sc2 : List Ident} {x y
   | cutL _ _ _ _ _ _ ha =>
     simp only [dbS, dbT, DStmt.cut.injEq, DTerm.xtor.injEq, true_and, and_true] at he ⊢
     exact ⟨ha.plug he.1 hx, he.2⟩
-  | cutR _ _ _ _ _ _ _ _ ha =>
+  | cutLR _ _ _ _ _ _ _ _ _ _ ha =>
+    simp only [dbS, dbT, DStmt.cut.injEq, DTerm.xtor.injEq, true_and, and_true] at he ⊢
+    exact ⟨he.1, ha.plug he.2 hx⟩
+  | cutR _ _ _ _ _ _ _ ha =>
     simp only [dbS, dbT, DStmt.cut.injEq, DTerm.xtor.injEq, true_and, and_true] at he ⊢
     exact ⟨he.1, ha.plug he.2 hx⟩
   | call _ _ _ ha =>
@@ -286,7 +308,10 @@ theorem SSplit.pcOk {s pc t S} (h : SSplit s pc t S) (hok : s.pcOk = true) :
   | cutL _ _ _ _ _ _ ha =>
     simp only [Stmt.pcOk, Term.pcOk, Bool.and_eq_true] at hok ⊢
     exact ⟨(ha.pcOk hok.1.2).1, fun x hx => ⟨⟨hok.1.1, (ha.pcOk hok.1.2).2 x hx⟩, hok.2⟩⟩
-  | cutR _ _ _ _ _ _ _ _ ha =>
+  | cutLR _ _ _ _ _ _ _ _ _ _ ha =>
+    simp only [Stmt.pcOk, Term.pcOk, Bool.and_eq_true] at hok ⊢
+    exact ⟨(ha.pcOk hok.2.2).1, fun x hx => ⟨hok.1, hok.2.1, (ha.pcOk hok.2.2).2 x hx⟩⟩
+  | cutR _ _ _ _ _ _ _ ha =>
     simp only [Stmt.pcOk, Term.pcOk, Bool.and_eq_true] at hok ⊢
     exact ⟨(ha.pcOk hok.2.2).1, fun x hx => ⟨hok.1, hok.2.1, (ha.pcOk hok.2.2).2 x hx⟩⟩
   | call _ _ _ ha =>
@@ -329,7 +354,8 @@ theorem SSplit.cutsOk {s pc t S} (h : SSplit s pc t S) (hok : s.cutsOk = true) :
   | cutL _ _ _ _ _ _ ha =>
     obtain ⟨h1, h2, h3⟩ := Stmt.cutsOk_cut_xtorL hok
     exact ⟨(ha.cutsOk h1).1, fun x hx => h3 _ ((ha.cutsOk h1).2 x hx)⟩
-  | cutR _ _ _ _ _ _ _ _ ha =>
+  | cutLR _ _ _ _ _ _ _ _ _ _ ha => simp [Stmt.cutsOk] at hok
+  | cutR _ _ _ _ _ _ _ ha =>
     obtain ⟨h1, h2, h3⟩ := Stmt.cutsOk_cut_xtorR hok
     exact ⟨(ha.cutsOk h2).1, fun x hx => h3 _ ((ha.cutsOk h2).2 x hx)⟩
   | call _ _ _ ha =>
